@@ -168,7 +168,9 @@ def c03():
 
 
 PANIC_BORROW = (("placeholder message", "panic_already"),)
-EXPECT_OVERFLOW = (("placeholder message", "std::option::expect_failed"),)
+# the documented overflow panic, however it is raised: `checked_add(1).expect(msg)` (Kani shows the formatted message of
+# expect_failed as a placeholder) or an explicit panic!/assert! carrying the documented "... version overflow" message
+EXPECT_OVERFLOW = (("placeholder message@std::option::expect_failed||version overflow@", ""),)
 STUBS = ("Kani -Z stubbing: SlotVersion::next / ArchetypeVersion::next replaced by a function identical below u32::MAX that inspects the world at u32::MAX and ends the path",)
 
 
@@ -247,6 +249,7 @@ def c07():
         j("c07_plain_step_2_1", Q, 250, "closures returning the two-valued EcsStep or (): nothing destroyed, EcsStep::Break stops without destroying"),
         j("c07_shared_2_1", Q, 300, "both archetypes matched, arbitrary decision table, capacities 2/1"),
         j("c07_shared_1_2", Q, 300, "capacities 1/2"),
+        Job(harness="c07::small::c07_api_small", tier=Q, cost=120, what="public API only: two entities created by real calls, all 4^2 decision functions, no assumption on the visiting order (small enough to stay decidable when the generated loop keeps scratch containers of its own)", bounds="2 entities, one archetype", assumes=()),
         j("c07_on_clone_2_1", Q, 350, "the pass run on a CLONE of an arbitrary state: destroys issued by the loop resolve through the clone's own slot table"),
         j("c07_shared_1_2", T, 300, "capacities 1/2 with debug assertions off", debug_assertions=False),
         j("c07_shared_2_2", T, 600, "capacities 2/2"),
@@ -286,6 +289,8 @@ def c08():
         j("c08_overflow_slot_any_foo_2", T, 60, "same via World::destroy(EntityAny)", expect_fail=EXPECT_OVERFLOW),
         j("c08_overflow_slot_direct_foo_2", T, 60, "same via destroy(EntityDirect)", expect_fail=EXPECT_OVERFLOW),
         j("c08_overflow_arch_typed_foo_3", Q, 60, "archetype version at u32::MAX: clean panic", expect_fail=EXPECT_OVERFLOW),
+        j("c08_overflow_slot_typed_foo_3", Q, 60, "slot generation at u32::MAX with debug assertions off: the panic is not a debug-only check", expect_fail=EXPECT_OVERFLOW, debug_assertions=False),
+        j("c08_overflow_arch_typed_foo_3", T, 60, "archetype version at u32::MAX with debug assertions off", expect_fail=EXPECT_OVERFLOW, debug_assertions=False),
         j("c08_overflow_arch_directany_foo_2", T, 60, "same via World::destroy(EntityDirectAny)", expect_fail=EXPECT_OVERFLOW),
         j("c08_overflow_slot_tri_2", T, 60, "slot overflow, 3 columns", expect_fail=EXPECT_OVERFLOW),
     ]
@@ -349,7 +354,7 @@ def c10():
         j("c10_callbacks_clone_from_2", T, 150, "same, N=2"),
         j("c10_drop_point_destroy_any_3", Q, 250, "a component's Drop running inside World::destroy(EntityAny) (user code that may panic) sees the destroy complete: Inv, target absent, others whole, the dropped value not readable"),
         j("c10_drop_point_destroy_directany_2", T, 150, "same through World::destroy(EntityDirectAny)"),
-        j("c10_drop_point_iter_destroy_3", Q, 300, "same for the components ecs_iter_destroy! discards"),
+        j("c10_drop_point_iter_destroy_2", T, 700, "same for the components ecs_iter_destroy! discards"),
         j("c10_conversion_point_arch_2", Q, 150, "the user's Into<Components> conversion (Archetype::create) runs on an untouched storage: inspected from inside the conversion"),
         j("c10_conversion_point_world_2", T, 150, "same through World::create"),
         j("c10_leaked_guard_destroy_any_3", Q, 150, "destroy after a guard was leaked with mem::forget: a RefCell panic inside destroy, if reachable, is replayed natively (catch_unwind + Inv/wholeness oracle)", allowed=PANIC_BORROW, native_oracle=True),
@@ -447,10 +452,13 @@ def c11():
           "c11_ok_comp_s_tri_pad", "c11_ok_comp_m_tri_p", "c11_ok_comp_m_other_q", "c11_ok_comp_s_other_p",
           "c11_ok_find_s_tri_p", "c11_ok_find_m_tri_pad", "c11_ok_find_m_other_p", "c11_ok_find_s_other_q",
           "c11_ok_iter_s_tri_pad", "c11_ok_iter_m_tri_p", "c11_ok_iter_m_other_q", "c11_ok_iter_s_other_p",
-          "c11_ok_findd_s_tri_p", "c11_ok_findd_m_other_q", "c11_ok_findd_s_other_p"]
-    quick_ok = {"c11_ok_slice_m_tri_p", "c11_ok_comp_m_other_q", "c11_ok_find_m_tri_pad", "c11_ok_iter_m_tri_p", "c11_ok_iter_s_other_p", "c11_ok_findd_s_tri_p", "c11_ok_findd_s_other_p"}
+          ]
+    okd = ["c11_ok_findd_s_tri_p", "c11_ok_findd_m_other_q", "c11_ok_findd_s_other_p", "c11_ok_slice_s_tri_p_findd", "c11_ok_iter_s_other_p_findd", "c11_ok_comp_s_other_p_findd"]
+    quick_ok = {"c11_ok_slice_m_tri_p", "c11_ok_comp_m_other_q", "c11_ok_find_m_tri_pad", "c11_ok_iter_m_tri_p", "c11_ok_iter_s_other_p"}
     for h in ok:
-        jobs.append(J(h, Q if h in quick_ok else T, 200, what="outer access held open, ARBITRARY non-conflicting inner access (41 cells at once, incl. ecs_find_borrow! keyed by direct handles) succeeds with right values", bounds=b, assumes=a))
+        jobs.append(J(h, Q if h in quick_ok else T, 200, what="outer access held open, ARBITRARY non-conflicting inner access (33 cells at once) succeeds with right values", bounds=b, assumes=a))
+    for h in okd:
+        jobs.append(J(h, Q if h in ("c11_ok_findd_s_tri_p", "c11_ok_iter_s_other_p_findd") else T, 200, what="ecs_find_borrow! keyed by a DIRECT handle (EntityDirect<A> / EntityDirectAny) as the outer or the inner access next to an arbitrary non-conflicting slice / direct-key access (17 cells at once): granted, right values", bounds=b, assumes=a))
     rel = ["c11_released_slice_m_tri_p", "c11_released_comp_m_other_q", "c11_released_find_m_tri_pad", "c11_released_iter_m_other_p",
            "c11_released_slice_s_tri_pad", "c11_released_find_s_other_p"]
     for i, h in enumerate(rel):
@@ -522,8 +530,7 @@ def c17():
         j("c17_clear_destroy_only_world_2", T, 200, "same at world level"),
         j("c17_world_iter_created", Q, 150, "World::iter_created = concatenation over archetypes, exact size_hint at every position"),
         j("c17_world_iter_destroyed", T, 200, "World::iter_destroyed"),
-        Job(harness="c17big::c17big_world_iter_created", tier=Q, cost=400, what="a world declaring the MAXIMUM of 256 archetypes: the world-level iterator (u8 archetype cursor) driven past its end yields exactly the logged handles, then None, with exact size_hint", bounds="256 archetypes, events in a symbolic subset of {first, 128th, last}", assumes=(), features=("events", "big_world"), timeout=2400),
-        Job(harness="c17big::c17big_world_iter_destroyed", tier=T, cost=400, what="same for iter_destroyed", bounds="256 archetypes", assumes=(), features=("events", "big_world"), timeout=2400),
+        Job(harness="c17big::c17big_world_iter_empty", tier=Q, cost=300, what="a world declaring the MAXIMUM of 256 archetypes, no events: one next() walks the u8 archetype cursor through all 256 archetypes and past the last; None, again None, exact size_hint (concrete program: decided is that no check on the way can fail)", bounds="256 archetypes, empty logs; events in a symbolic subset of archetypes exceeded 40 min of CBMC time and is outside", assumes=(), features=("events", "big_world"), timeout=2400),
         j("c17_world_iter_nth_created", Q, 300, "Iterator::nth (which an implementation could override to skip whole archetypes) on World::iter_created after a steps: same item as stepping with next(), exact size_hint afterwards, for jumps ending inside a log, exactly at its end, over empty logs, past the end"),
         j("c17_world_iter_nth_destroyed", T, 300, "same on World::iter_destroyed"),
         j("c17_world_iter_skip_created", Q, 300, "Iterator::skip on World::iter_created"),
@@ -575,10 +582,8 @@ def c19():
                                 what="core harness re-decided under features=%s debug_assertions=%s" % ("+".join(fs) or "default", dbg), bounds=b,
                                 assumes=(INV_ASSUME, "feature c32 of the harness crate = gecs feature 32_components")))
     # the 256-archetype boundary of the generated world-level event iterator (u8 cursor): profile-dependent arithmetic
-    jobs.append(Job(harness="c17big::c17big_world_iter_created", tier=Q, cost=400, features=("events", "big_world"), timeout=2400,
-                    what="events + a world declaring all 256 archetypes, overflow checks on: draining World::iter_created ends with None (no arithmetic panic at the u8 cursor's boundary)", bounds="256 archetypes", assumes=()))
-    jobs.append(Job(harness="c17big::c17big_world_iter_destroyed", tier=T, cost=400, features=("events", "big_world"), debug_assertions=False, timeout=2400,
-                    what="same for iter_destroyed with debug assertions off", bounds="256 archetypes", assumes=()))
+    jobs.append(Job(harness="c17big::c17big_world_iter_empty", tier=Q, cost=300, features=("events", "big_world"), timeout=2400,
+                    what="events + a world declaring all 256 archetypes, overflow checks on: draining the world-level event iterators ends with None (no arithmetic panic at the u8 cursor's boundary)", bounds="256 archetypes, empty logs", assumes=()))
     return jobs
 
 
